@@ -374,7 +374,7 @@ func (f *FuncCtx) pureApp(name string, sig *types.Signature, recv *Val, args []V
 		rt := sig.Results().At(i).Type()
 		fn := "pure." + sanitize(name)
 		if sig.Results().Len() > 1 {
-			fn = fmt.Sprintf("%s#%d", fn, i)
+			fn = fmt.Sprintf("%s.r%d", fn, i)
 		}
 		if !f.S.declared[fn] {
 			f.S.declare(fn, fmt.Sprintf("(declare-fun %s (%s) %s)", fn, strings.Join(asorts, " "), f.S.SortOf(rt)))
@@ -401,6 +401,21 @@ func (f *FuncCtx) pureApp(name string, sig *types.Signature, recv *Val, args []V
 			t = fmt.Sprintf("(%s %s)", fn, strings.Join(ats, " "))
 		}
 		out = append(out, Val{T: t, Typ: rt})
+	}
+	return out
+}
+
+// aliasesOf returns the local names under which a package is imported in the package under verification.
+func (f *FuncCtx) aliasesOf(pkgPath string) []string {
+	var out []string
+	seen := map[string]bool{}
+	for _, file := range f.Pkg.Syntax {
+		for _, im := range file.Imports {
+			if strings.Trim(im.Path.Value, "\"") == pkgPath && im.Name != nil && !seen[im.Name.Name] {
+				seen[im.Name.Name] = true
+				out = append(out, im.Name.Name)
+			}
+		}
 	}
 	return out
 }
@@ -458,7 +473,11 @@ func (f *FuncCtx) callFunc(fn *types.Func, recv *Val, recvExpr ast.Expr, e *ast.
 		return vs
 	}
 	// interface method or declared pure
-	if f.isPure(key, short, full) {
+	pureKeys := []string{key, short, full}
+	for _, al := range f.aliasesOf(pkgPath) {
+		pureKeys = append(pureKeys, al+"."+key)
+	}
+	if f.isPure(pureKeys...) {
 		return f.pureApp(short, sig, recv, args)
 	}
 	pc, c := f.E.contractFor(fn, f.Pkg)
@@ -727,9 +746,15 @@ func (f *FuncCtx) callContract(fn *types.Func, c *FuncContract, pc *PkgContracts
 	} else {
 		results = f.resultsOf(sig, fn.Name())
 	}
-	for _, cl := range c.Ensures {
-		g := f.evalClause(cl, env, mk(results, pre))
-		f.assume(env, g)
+	// inside contract expressions the postconditions of a pure callee are unfolded one level only,
+	// and never for the function under verification itself (no circular use of its own contract)
+	if f.spec == nil {
+		f.specDepth++
+		for _, cl := range c.Ensures {
+			g := f.evalClause(cl, env, mk(results, pre))
+			f.assume(env, g)
+		}
+		f.specDepth--
 	}
 	if c.Assumed {
 		f.note("assumed contract (body not verified): " + short)
@@ -749,8 +774,14 @@ func (f *FuncCtx) havocPath(path string, bound map[string]Val, env *Env, pc *Pkg
 	case *ast.SelectorExpr:
 		saved := f.spec
 		f.spec = &specCtx{bound: []map[string]Val{bound}, pkg: cpkg, pcs: pc, nolocals: true}
+		nerr := len(f.errs)
 		base := f.specExpr(p.X, env)
 		f.spec = saved
+		if len(f.errs) > nerr || base.Typ == nil {
+			// the base is a local of the callee (a freshly allocated object): not visible to the caller
+			f.errs = f.errs[:nerr]
+			return
+		}
 		if _, el, ok := ptrStruct(base.Typ); ok {
 			obj, idx := lookupFieldAnyPkg(base.Typ, p.Sel.Name)
 			if obj == nil {
